@@ -11,6 +11,8 @@ class _Anno:
 
 def handle(c):
     k = c['kind']
+    if isinstance(c.get('exc'), dict):
+        c = dict(c); c['exc'] = c['exc']['regex']
     if k == 'sites':
         r = AminoAcidSeqRecord(Seq(c['seq']))
         return r.find_all_enzymatic_cleave_sites(rule=c['rule'], exception=c['exc'])
@@ -71,6 +73,9 @@ def _cli_pool(c):
     shutil.rmtree(d, ignore_errors=True)
     os.makedirs(d)
     g, a, p = G.write_world(c['world'], d)
+    with open(p, 'a') as fh:
+        for pid, tid, gid, sq in c.get('extra_prots', []):
+            fh.write('>%s|%s|%s|-|-|X|%d\n%s\n' % (pid, tid, gid, len(sq), sq))
     out = {}
     def cl(ps):
         return ['-c', ps['rule'], '--cleavage-exception', ps['exc'], '-m', ps['k'], '-w', ps['min_mw'],
